@@ -23,8 +23,9 @@ def record (arr : List Nat) (n i : Nat) : List Nat := field arr (i * n) n
 
 /-- a time field as the reader of a block whose header says version `v` takes it: the whole field
 as a big-endian two's-complement number for versions 2 and 3; ITS FIRST FOUR BYTES ONLY for version 1
-(for the 4-byte fields of a first block that is the whole field; for the 8-byte fields of a second
-block whose header says version 1 it is the HIGH half — see `Props.C16.inconsistent_versions_accepted`) -/
+(for the 4-byte fields of a first block that is the whole field; an 8-byte field under a header
+that says version 1 — where it would be the HIGH half — no longer occurs in an accepted file since the
+repair of finding F35: `Props.C16.accepted_versions_agree`, `inconsistent_versions_accepted_pinned_before_F35`) -/
 def fieldTime (v : Version) (chunk : List Nat) : Int :=
   match v with
   | .V1 => asI32 (beNat (chunk.take 4))
